@@ -155,3 +155,88 @@ Qed.
 Theorem limiter_refines_spec cfg arr :
   times_ok 0 arr -> fst (run cfg [] arr) = fst (spec_run cfg [] arr).
 Proof. intros H. eapply run_refines; [apply (SRel_init cfg 0) | assumption]. Qed.
+
+(* ---- cleanup (run at every client disconnect) keeps the refinement ---- *)
+Lemma cleanup_deque_rel rules ts log last now h :
+  Rel rules ts log last -> last <= now -> max_interval rules <= h ->
+  Rel rules (cleanup_deque h now ts) log now.
+Proof.
+  intros HR Hl Hh. pose proof (Rel_later _ _ _ _ _ HR Hl) as HRn.
+  destruct HR as (Hd & p & Hp & Hf & E).
+  unfold cleanup_deque. destruct ts as [|a0 tsr]; [assumption|].
+  destruct (now - a0 >? h) eqn:Es; [|assumption].
+  split; [assumption|]. exists now. split; [lia|]. split.
+  - eapply Forall_impl; [|exact Hf]. simpl; intros; lia.
+  - (* nothing in the log is younger than the horizon *)
+    assert (Hdts : desc (a0 :: tsr)) by (rewrite E; apply desc_filter; assumption).
+    destruct Hdts as [Hall _]. rewrite Forall_forall in Hall.
+    symmetry. rewrite <- (filter_filter_cut (p - max_interval rules)) by lia. rewrite <- E.
+    simpl. replace (now - max_interval rules <=? a0) with false by lia.
+    clear -Hall Es Hh. induction tsr as [|b l IH]; simpl; [reflexivity|].
+    assert (b <= a0) by (apply Hall; left; reflexivity).
+    replace (now - max_interval rules <=? b) with false by lia.
+    apply IH. intros x Hx. apply Hall. right. assumption.
+Qed.
+
+Lemma get_deque_map (f : dkey * list Z -> dkey * list Z) (s : lstate) k :
+  (forall e, fst (f e) = fst e) ->
+  get_deque k (map f s) = match find (fun e => dkey_eqb k (fst e)) s with
+                          | Some e => snd (f e) | None => [] end.
+Proof.
+  intros Hf. induction s as [|[k' d] s IH]; simpl; [reflexivity|].
+  specialize (Hf (k', d)) as Hk. destruct (f (k', d)) as [k2 d2] eqn:Ef. simpl in *. subst k2.
+  destruct (dkey_eqb k k'); [rewrite Ef; reflexivity | exact IH].
+Qed.
+Lemma get_deque_find (s : lstate) k :
+  get_deque k s = match find (fun e => dkey_eqb k (fst e)) s with Some e => snd e | None => [] end.
+Proof. induction s as [|[k' d] s IH]; simpl; [reflexivity|]. destruct (dkey_eqb k k'); [reflexivity | exact IH]. Qed.
+
+(* the horizon covers every rule list that can govern a per-address deque *)
+Lemma scope_horizon_ge cr cmd rules : lookup_str cmd cr = Some rules -> max_interval rules <= scope_horizon cr.
+Proof.
+  unfold scope_horizon. induction cr as [|[c r] cr IH]; simpl; [discriminate|].
+  destruct (str_eqb cmd c); [intros E; inversion E; subst; lia | intros E; specialize (IH E); lia].
+Qed.
+Lemma horizon_ge cfg scope cmd rules :
+  str_eqb scope g_global = false -> rules_at cfg scope cmd = Some rules -> max_interval rules <= horizon cfg.
+Proof.
+  unfold rules_at, horizon. intros Hs. induction cfg as [|[sc cr] cfg IH]; simpl; [discriminate|].
+  destruct (str_eqb scope sc) eqn:E.
+  - apply str_eqb_eq in E. subst sc. rewrite Hs. destruct cr as [|p cr']; [discriminate|].
+    intros El. pose proof (scope_horizon_ge _ _ _ El). lia.
+  - intros El. specialize (IH El). lia.
+Qed.
+Lemma horizon_nonneg cfg : 0 <= horizon cfg.
+Proof. unfold horizon. induction cfg; simpl; lia. Qed.
+
+Lemma gov_le_horizon cfg k :
+  str_eqb (fst k) g_global = false -> str_eqb (fst k) g_ip = false -> max_interval (gov cfg k) <= horizon cfg.
+Proof.
+  destruct k as [b c]. simpl. intros Hg Hi. unfold gov. rewrite Hg.
+  destruct (rules_at cfg b c) as [r|] eqn:E1.
+  - eapply horizon_ge; eassumption.
+  - destruct (rules_at cfg g_ip c) as [r|] eqn:E2.
+    + apply (horizon_ge cfg g_ip c r); [reflexivity | assumption].
+    + simpl. apply horizon_nonneg.
+Qed.
+
+(* deques are only ever created for the bucket "global" or for a client address; the theorem is
+   stated for states whose non-global buckets are addresses other than the literal "ip" *)
+Definition buckets_ok (s : lstate) : Prop :=
+  forall e, In e s -> str_eqb (fst (fst e)) g_global = true \/ str_eqb (fst (fst e)) g_ip = false.
+
+Theorem cleanup_refines cfg s sp last now :
+  SRel cfg last s sp -> last <= now -> buckets_ok s -> SRel cfg now (cleanup cfg now s) sp.
+Proof.
+  intros HS Hl Hb. unfold cleanup.
+  destruct (lookup_str g_ip cfg) as [[|p cr]|]; try (eapply SRel_later; eassumption).
+  intros k. rewrite get_deque_map by (intros [k' d]; simpl; destruct (str_eqb (fst k') g_global); reflexivity).
+  pose proof (HS k) as Hk. rewrite (get_deque_find s k) in Hk.
+  destruct (find (fun e => dkey_eqb k (fst e)) s) as [[k' d]|] eqn:Ef.
+  - apply find_some in Ef. destruct Ef as [Hin Heq]. simpl in Heq. apply dkey_eqb_eq in Heq. subst k'.
+    simpl in *. destruct (str_eqb (fst k) g_global) eqn:Eg; simpl.
+    + eapply Rel_later; eassumption.
+    + destruct (Hb _ Hin) as [H|H]; simpl in H; [congruence|].
+      apply cleanup_deque_rel with (last := last); try assumption. apply gov_le_horizon; assumption.
+  - eapply Rel_later; eassumption.
+Qed.
